@@ -157,6 +157,32 @@ def run(chk: Check):
             continue
         sources = list(sources) + [((np.arange(int(np.prod(np.shape(want))), dtype="int64").reshape(np.shape(want)) % 9) - 4, tuple(new))]
         run_program(chk, da, ("elem", "add", prog, ("src", len(sources) - 1)), sources)
+    # slices that only trim INSIDE the first / last block (they cull no whole block: pushdown gates differ between the raw and
+    # the lowered form of a node) on top of every kind of root; and all-integer indices over masked ufunc calls (where= / out=)
+    for prog, sources, want in progs.gen_programs(api_rng, n // 2, ops=progs.CORE_OPS + ["reduce", "cum"], depth_choices=(1, 2, 3)):
+        if not np.ndim(want) or 0 in np.shape(want):
+            continue
+        try:
+            with warnings.catch_warnings():
+                warnings.simplefilter("ignore")
+                ch = progs.build(prog, da, sources, memo={}).chunks
+        except Exception:  # noqa: BLE001
+            continue
+        if any(isinstance(x, float) for c in ch for x in c):
+            continue
+        idx = tuple(slice(1 if c[0] >= 2 else 0, sum(c) - (1 if c[-1] >= 2 else 0)) for c in ch)
+        if all(i == slice(0, sum(c)) for i, c in zip(idx, ch)):
+            continue
+        chk.count("family:inside-block-trim")
+        run_program(chk, da, ("slice", prog, idx), sources)
+    for prog, sources, want in progs.gen_programs(api_rng, n // 3, ops=["where_out", "where_out", "elem2", "slice", "T"], depth_choices=(1, 2)):
+        if not np.ndim(want) or 0 in np.shape(want) or not any(q[0] == "where_out" for q in progs.all_nodes(prog)):
+            continue
+        idx = tuple(api_rng.randrange(-s, s) for s in np.shape(want))
+        chk.count("family:integer-index-over-masked-ufunc")
+        run_program(chk, da, ("slice", prog, idx), sources)
+        if np.ndim(want) > 1:
+            run_program(chk, da, ("slice", prog, idx[:-1]), sources)
     # empty and degenerate selections on top of every kind of root (pushdowns meet empty inputs)
     for prog, sources, want in progs.gen_programs(chk.rng, n // 2, ops=progs.CORE_OPS, depth_choices=(1, 2, 3)):
         if not np.ndim(want):
